@@ -219,6 +219,11 @@ pub enum Spelling {
     /// expression starts with the placeholder `$UP<levels>`, which stands for those components of the
     /// world root's path, escaped: a literal prefix, so the walk still never leaves the world.
     Above { levels: u8, slash: bool },
+    /// The empty path `""`: what `Path::parent` and `Glob::partition` hand out for "here". Spelled
+    /// so only where it denotes the base (the working directory is the base) — otherwise as the
+    /// plain relative spelling — and only drawn for globs with a literal first component (a walk
+    /// of `""` itself names no directory).
+    Empty,
 }
 
 impl Spelling {
